@@ -224,5 +224,11 @@ def present(rng, x, dtypes=('int', 'float32'), p_plain=.7):
     if kind == 'float32':
         x32 = np.asarray(x, dtype=np.float32)
         return x32, x32.astype(float), 'float32'
+    if kind == 'float16':
+        # half precision (sensor / image data): finite values of ordinary size - whose SUM over the record can exceed the largest half
+        a = np.asarray(x, dtype=float)
+        a = a / max(np.abs(a).max(), 1e-12) * float(pick(rng, [1, 40, 300, 2000]))
+        x16 = a.astype(np.float16)
+        return x16, x16.astype(float), 'float16'
     xs, tag = relayout(rng, np.asarray(x), 'strided')
     return xs, np.asarray(x, dtype=float), tag
